@@ -121,7 +121,12 @@ def r2(ctx, F):
                     if inner[0] == 'call' and inner[1].get('impl_adt') == perf_adt(mode):
                         recv = as_param_path(inner[2][0])
                         args_ok = params_passed_through(inner[2][1:])
-                        if inner[1].get('name') != target_name:
+                        if inner[1].get('name') != target_name and payload_method is None and recv == (1, ('as ' + variant, '0')) and args_ok and \
+                                F.method(PERF, inner[1].get('name'), inherent_only=True) is not None:
+                            # an alias: the mode builders have no method of this name, and the arm forwards everything to the payload method that
+                            # the same-named Performance method (judged on its own) forwards to
+                            good = True
+                        elif inner[1].get('name') != target_name:
                             why = 'calls %sPerformance::%s, expected ::%s' % (CAP[mode], inner[1].get('name'), target_name)
                         elif recv != (1, ('as ' + variant, '0')):
                             why = 'receiver is %s, not the %s payload' % (prov.show(inner[2][0], maxdepth=3), variant)
